@@ -755,7 +755,7 @@ func families(tier string) []mc.Family {
 // implementations (insertion sort up to 12 elements), with encoded and
 // unencoded glyphs interleaved in every residue pattern.
 func manyGlyphsFamily(budget time.Duration) mc.Family {
-	sizes := []int{11, 12, 13, 14, 20, 33, 64, 100, 300}
+	sizes := []int{11, 12, 13, 14, 20, 33, 64, 100, 300, 65535, 65536, 70000}
 	// encoding patterns: which glyphs (by index in name order) are encoded, and at which codes
 	type pat struct {
 		name string
@@ -802,6 +802,9 @@ func manyGlyphsFamily(budget time.Duration) mc.Family {
 			for i := range names {
 				// alphabetical order differs from numeric and from insertion order
 				names[i] = fmt.Sprintf("g%03d%c", (i*7919)%1000, 'a'+rune(i%26))
+				if n > 1000 {
+					names[i] = fmt.Sprintf("g%06d%c", (i*7919)%1000000, 'a'+rune(i%26)) // (distinct for up to a million glyphs)
+				}
 			}
 			if variant >= 1 {
 				// names on both sides of ".notdef" in byte order
